@@ -2,7 +2,7 @@
    Proofs/EnumParseP.v, Proofs/EnumTotalP.v.  The model's parse_multi threads ONE parser state through
    all inputs exactly as the Rust does (parse_multi_from: reset_to, then run_parse on the state the
    previous input left, whether it succeeded, failed half-way or was only partially consumed). *)
-From Nv Require Import Model.EnumOk Proofs.EnumTotalP Proofs.EnumParseP.
+From Nv Require Import Model.EnumOk Proofs.EnumTotalP Proofs.EnumParseP Gen.LexFormats.
 
 (* table obligation (T5): reset_to clears the mid result -- regenerated from the source on every run *)
 Theorem C08_reset_clears_mid : reset_clears_mid = true.
@@ -48,3 +48,10 @@ Example ex_C08_history :
   | _ => False
   end.
 Proof. vm_compute. exact I. Qed.
+
+(* the lexical parser: its state is nothing but the (shared, immutable) format reference -- regenerated from
+   `struct ParseState` of impl_lexical/parser.rs on every run (T2); the model lex_parse is accordingly a
+   function of format and input only, so "parsing depends only on format and input" holds by construction *)
+Theorem C08_lexical_state_is_format_only : lex_state_fields = [[102; 111; 114; 109; 97; 116]%N].
+Proof. reflexivity. Qed.
+Print Assumptions C08_lexical_state_is_format_only.
